@@ -2,6 +2,7 @@ package frugal
 
 import (
 	"context"
+	"errors"
 
 	"github.com/apache/thrift/lib/go/thrift"
 )
@@ -67,6 +68,12 @@ func (client *FStandardClient) Call(fctx FContext, method string, args, result t
 	resultTransport, err := client.transport.Request(fctx, payload)
 	if err != nil {
 		return err
+	}
+	if resultTransport == nil {
+		// Transports hand back a nil transport for an empty (oneway-style)
+		// response frame; a two-way call cannot be completed from it.
+		return thrift.NewTProtocolExceptionWithType(thrift.INVALID_DATA,
+			errors.New("frugal: empty response to a two-way request"))
 	}
 	return client.processReply(ctx, fctx, method, result, resultTransport)
 }
